@@ -67,7 +67,7 @@ PodId(n, i) == (NIdx(n) - 1) * MaxPerNode + i
 
 AbsPodOf(p, n, i) ==
       [id |-> PodId(n, i), ns |-> NS, name |-> "", node |-> n, pin |-> "nodeName", pinAll |-> TRUE, eds |-> EDSName,
-       rsl |-> p.rs, owner |-> "rs", ownerRS |-> p.rs, ownerName |-> "", hash |-> p.hash, tol |-> TRUE, res |-> "tmpl",
+       rsl |-> p.rs, owner |-> "rs", ownerRS |-> p.rs, ownerName |-> "", hash |-> p.hash, tol |-> TRUE, res |-> "tmpl", res2 |-> "tmpl",
        nodeHash |-> "ok", setLabel |-> "", phase |-> p.phase, ready |-> p.ready, term |-> p.term, sched |-> TRUE,
        stuck |-> FALSE, restarts |-> p.restarts, restartAge |-> p.rAge, waiting |-> "none", startAge |-> p.sAge,
        clabel |-> p.clabel, age |-> 0, born |-> i, foreign |-> FALSE]
@@ -78,7 +78,7 @@ Flatten(q) == IF q = <<>> THEN <<>> ELSE Head(q) \o Flatten(Tail(q))
 AbsPodsOf(pods) == Flatten([k \in DOMAIN NodeSeq |-> [i \in DOMAIN pods[NodeSeq[k]] |-> AbsPodOf(pods[NodeSeq[k]][i], NodeSeq[k], i)]])
 
 AbsNodeOf(nodes, n) == [name |-> n, fits |-> SelectSeq(TmplSeq, LAMBDA t : t \in nodes[n].fits), csel |-> nodes[n].csel, zone |-> "",
-                        taint |-> FALSE, override |-> "none", slabel |-> ""]
+                        taint |-> FALSE, override |-> "none", override2 |-> "none", slabel |-> ""]
 AbsNodesOf(nodes) == LET pres == SelectSeq(NodeSeq, LAMBDA n : nodes[n].present) IN [k \in DOMAIN pres |-> AbsNodeOf(nodes, pres[k])]
 
 AbsRSOf(rsv, i) ==
